@@ -121,7 +121,7 @@ pub fn scale_alphabet() -> Vec<f64> {
 }
 
 /// Structured families of larger point sets. Returns the points in construction order.
-pub const FAMILIES: &[&str] = &["lattice", "lattice-rev", "lattice-stride", "lattice-bitrev", "collinear", "identical", "two-clusters", "weyl", "dup-pairs"];
+pub const FAMILIES: &[&str] = &["lattice", "lattice-rev", "lattice-stride", "lattice-bitrev", "collinear", "identical", "two-clusters", "weyl", "dup-pairs", "wide-extent", "weyl-wide"];
 
 fn bitrev(mut i: usize, bits: u32) -> usize {
     let mut r = 0;
@@ -233,6 +233,25 @@ pub fn family(name: &str, n: usize, dim: usize, seed: u64) -> Vec<Vec<f64>> {
                 })
                 .collect()
         }
+        // round 8: data whose extent is far beyond the root scale a cover tree usually needs
+        // (1.3^100 ~ 2.5e11): a line 0, 1e11, 2e11, ... in construction order "middle first", and
+        // quasi-random points in [-1e12, 1e12)
+        "wide-extent" => (0..n)
+            .map(|i| {
+                let t = ((i * 7 + n / 2) % n) as f64;
+                (0..dim).map(|j| if j == 0 { t * 1e11 } else { xf(((i >> j) & 3) as f64, m) }).collect()
+            })
+            .collect(),
+        "weyl-wide" => (0..n)
+            .map(|i| {
+                (0..dim)
+                    .map(|j| {
+                        let t = (i as f64 + 1.0 + (seed % 8) as f64 * 1000.0) * ALPHAS[j];
+                        ((t - t.floor()) * 2.0 - 1.0) * 1e12
+                    })
+                    .collect()
+            })
+            .collect(),
         other => panic!("unknown family {}", other),
     }
 }
